@@ -24,6 +24,8 @@ func init() {
 			"the loader's fetch-kind dispatch covers every fetch implementation; every planner callback is registered with its walker. " +
 			"NOT decided (no honest structural proxy): data(gateway) == data(monolith), error equivalence, planning totality, field ownership of subgraph requests.",
 		Mutants: []Mutant{
+			{Name: "the field configuration is looked up by the response name (positive control of the response-name taint rule)", File: "v2/pkg/engine/datasource/graphql_datasource/graphql_datasource.go", Rule: "C01-R13", Key: "Planner.EnterField/schema-lookup-by-schema-name:ForTypeField",
+				Old: "\tfieldConfiguration := p.visitor.Config.Fields.ForTypeField(typeName, fieldName)\n\n\tfor i := range p.config.customScalarTypeFields {", New: "\tfieldConfiguration := p.visitor.Config.Fields.ForTypeField(typeName, p.visitor.Operation.FieldAliasOrNameString(ref))\n\n\tfor i := range p.config.customScalarTypeFields {"},
 			{Name: "@provides looked up by field name only (seeded change C01-22)", File: "v2/pkg/engine/plan/datasource_filter_collect_nodes_visitor.go", Rule: "C01-R9", Key: "hasProvidesConfiguration/field-name-lookup-also-compares-type-name",
 				Old: "\t\treturn provide.TypeName == typeName && provide.FieldName == fieldName\n", New: "\t\treturn provide.FieldName == fieldName\n"},
 			{Name: "merged scope is unscoped only when both sides are (seeded change C01-1)", File: "v2/pkg/engine/postprocess/deduplicate_single_fetches.go", Rule: "C01-R10", Key: "mergeTypeNames/empty-scope-absorbs",
@@ -452,6 +454,9 @@ func runC01(r *fw.Run) {
 		"Planner.addDirectiveToNode": "the local list `variables` is filled a few lines above, in the same function, only with argument values whose Kind == ValueKindVariable; the loop reads the elements of that list",
 	})
 	r.Expect("C01-R11", "kind-specific uses of a value's ref in graphql_datasource", nKR, 1)
+	r.Rule("C01-R13", "in the GraphQL data source planner a response name (alias or name) never reaches a lookup keyed by the schema-side field name")
+	nRN := responseNamesNeverReachSchemaLookups(r, "C01-R13", []string{"gqlds"})
+	r.Expect("C01-R13", "schema-side field name arguments in graphql_datasource", nRN, 1)
 
 	r.Rule("C01-R8", "in every planner visitor (packages plan and graphql_datasource) a node is looked up only in the document it came from: a definition node (Walker.EnclosingTypeDefinition, TypeDefinitions, a lookup in the definition) is never handed to a method of the operation document, nor the other way round")
 	documentProvenance(r, "C01-R8", []string{"plan", "gqlds"}, 28)
